@@ -93,6 +93,7 @@ def main_c19(tier):
         tail_tasks = [(ci, part, 12 if ci in dc.LINE_BYTES else 1)
                       for ci in range(len(dc.minimal_cases()))
                       for part in range(12 if ci in dc.LINE_BYTES else 1)]
+        tail_tasks += [(-k - 1, 0, 1) for k in range(len(dc.tail_variants()))]
         for part in pmap(dc.c19_tail_chunk, tail_tasks):
             sweep_recs.extend(part)
         sweeps.append({"what": "every sweep file cut 1, 2, 3, 16, 256, 4000 bytes before its end",
@@ -138,7 +139,7 @@ def main_c19(tier):
             fv1.append(r)
     for r in (sv[:dc.MAX_REPORTED] + fv1[:dc.MAX_REPORTED]):
         # sweep violations: one fault on a fixed small file is already minimal
-        case = dc.sweep_case(r.get("src", "min"), r["ci"])
+        case = dc.sweep_case(r.get("src", "min"), r["ci"]) if r["ci"] >= 0 else dc.tail_variants()[-r["ci"] - 1]
         if "v" in r:
             plan = [{"kind": "set", "at": r["k"], "val": r["v"]}]
         else:
